@@ -666,6 +666,31 @@ func genSolidCollider(rng *rand.Rand, kind int) *primShape {
 
 // ---------------------------------------------------------------------------- generators: solids only
 
+// genDegenerateTriangle: a 2-D triangle with collinear or repeated vertices is accepted by the constructor
+// (it stores a pseudo-inverse); whatever it contains must still lie inside its reported box
+func genDegenerateTriangle(rng *rand.Rand, kind int) *primShape {
+	a := [2]int{ri(rng, -2, 2), ri(rng, -2, 2)}
+	d := [2]int{ri(rng, -2, 2), ri(rng, -2, 2)}
+	if d == [2]int{} {
+		d = [2]int{1, 1}
+	}
+	pt := func(k int) model2d.Coord { return model2d.XY(float64(a[0]+k*d[0]), float64(a[1]+k*d[1])) }
+	var ps [3]model2d.Coord
+	switch kind % 4 {
+	case 0:
+		ps = [3]model2d.Coord{pt(0), pt(1), pt(2)} // collinear, in order
+	case 1:
+		ps = [3]model2d.Coord{pt(2), pt(0), pt(1)} // collinear, middle vertex last
+	case 2:
+		ps = [3]model2d.Coord{pt(0), pt(0), pt(2)} // a repeated vertex
+	default:
+		ps = [3]model2d.Coord{pt(1), pt(1), pt(1)} // a point
+	}
+	return lazySolid2("model2d.Triangle(degenerate)", fmt.Sprintf("%v %v %v", ps[0], ps[1], ps[2]), func() model2d.Solid {
+		return model2d.NewTriangle(ps[0], ps[1], ps[2])
+	})
+}
+
 func genPolytope(rng *rand.Rand, kind int) *primShape {
 	lo := [3]int{ri(rng, -3, 0), ri(rng, -3, 0), ri(rng, -3, 0)}
 	hi := [3]int{lo[0] + ri(rng, 1, 4), lo[1] + ri(rng, 1, 4), lo[2] + ri(rng, 1, 4)}
@@ -1639,7 +1664,7 @@ func init() {
 			shapes = append(shapes, genPolytope(rng, i), genMetaball3(rng, i))
 		}
 		for i := 0; i < 3*n; i++ {
-			shapes = append(shapes, genMetaball2(rng, i), genBitmap(rng))
+			shapes = append(shapes, genMetaball2(rng, i), genBitmap(rng), genDegenerateTriangle(rng, i))
 		}
 		for i := 0; i < 16*((n+3)/4); i++ {
 			shapes = append(shapes, genToolbox(rng, i))
